@@ -105,27 +105,28 @@ def tramp_patches(LItem, LPQ, LTramp, Lock, Condition, now):
 
 @contextlib.contextmanager
 def fresh_singleton_local():
-    """CurrentThreadScheduler.singleton() keeps a class-level thread-local trampoline created at import time; give the run a
-    fresh one built from the patched classes"""
+    """CurrentThreadScheduler.singleton() keeps its trampolines in a class-level `_Local()` object created at import time (with
+    the unpatched Lock/Condition/PriorityQueue).  Re-create that state from the module's OWN definitions under the patches, so
+    that the code under test decides how trampolines are allotted to threads: a fresh `_Local()` instance, and — should `_Local`
+    carry a class-level trampoline — that class attribute re-evaluated with the instrumented Trampoline."""
+    from weakref import WeakKeyDictionary
+
     from reactivex.scheduler import currentthreadscheduler as m
 
     saved_local = m.CurrentThreadSchedulerSingleton._local
     saved_global = m.CurrentThreadScheduler._global
-
-    class _L(m.local):
-        def __init__(self):
-            super().__init__()
-            self.tramp = m.Trampoline()
-
-    m.CurrentThreadSchedulerSingleton._local = _L()
-    from weakref import WeakKeyDictionary
-
+    cls_attr = m._Local.__dict__.get("tramp", None)
+    if cls_attr is not None:
+        m._Local.tramp = m.Trampoline()
+    m.CurrentThreadSchedulerSingleton._local = m._Local()
     m.CurrentThreadScheduler._global = WeakKeyDictionary()
     try:
         yield
     finally:
         m.CurrentThreadSchedulerSingleton._local = saved_local
         m.CurrentThreadScheduler._global = saved_global
+        if cls_attr is not None:
+            m._Local.tramp = cls_attr
 
 
 def make_scheduler(kind):
@@ -442,13 +443,13 @@ def oracle_threads(cfg, res):
     if cfg["kind"] in ("ct", "cts"):
         # each thread's trampoline is independent: every thread, on its own, satisfies the single-thread property and runs all
         # and only its own actions on itself
+        for lbl, t in ran_on.items():
+            if sched_on.get(lbl) != t:
+                return f"action {lbl} scheduled on thread {sched_on.get(lbl)} ran on thread {t} (not on the scheduling thread: the threads' trampolines are not independent)"
         for t, evs in per.items():
             v = oracle_events(evs) or all_run(evs)
             if v:
                 return f"thread {t}: {v}"
-        for lbl, t in ran_on.items():
-            if sched_on.get(lbl) != t:
-                return f"action {lbl} scheduled on thread {sched_on.get(lbl)} ran on thread {t}"
         return None
     # shared TrampolineScheduler: one drain loop at a time over all threads; no action lost; cancelled never run; never nested
     open_ = None
